@@ -88,6 +88,17 @@ def pack_boundary():
 def cases(ctx):
     rng = ctx.rng
     yield from pack_boundary()
+    # values exactly 2**63 apart (their int64 difference wraps) must not fall into one group
+    for vs in ([0, -2**63, 0, 17], [2**63 - 1, -1, -1], [1, 1 - 2**63], [-2**63, 0, 2**63 - 1, -1], [5, 5 - 2**63, 5]):
+        for mn in (None, 1, 2):
+            yield {"kind": "group", "vs": vs, "min": mn, "max": None}
+            yield {"kind": "group_rows", "cols": 1, "rows": [[v] for v in vs], "count": None}
+    # set operations on rows of different integer widths: the wider side must not be wrapped into the narrower
+    for da, bits in (("int32", 32), ("uint8", 8), ("int16", 16), ("int64", 64)):
+        a = [[1, 2], [3, 4], [5, 6]]
+        b = [[3 + 2**bits if bits < 64 else 3, 4], [5, 6 - 2**bits if bits < 64 else 6], [1, 2]]
+        yield {"kind": "boolean_rows", "a": a, "b": b, "dtype_a": da, "dtype_b": "int64"}
+        yield {"kind": "boolean_rows", "a": b, "b": a, "dtype_a": "int64", "dtype_b": da}
     if ctx.tier == "thorough":
         yield from blocks_exhaustive()
     while True:
@@ -128,7 +139,16 @@ def cases(ctx):
             _, b = _rows(rng, rng.randint(1, 6), cols)
             if rng.random() < 0.7 and a:
                 b = b + [list(rng.choice(a))]
-            yield {"kind": k, "a": a, "b": b}
+            c = {"kind": k, "a": a, "b": b}
+            if rng.random() < 0.3:
+                # narrow first operand, wide second one holding values congruent to the first's modulo 2**bits
+                da, bits = rng.choice([("int32", 32), ("int16", 16), ("uint8", 8)])
+                lo, hi = (0, 200) if da == "uint8" else (-100, 100)
+                a = [[rng.randint(lo, hi) for _ in range(cols)] for _ in range(rng.randint(1, 5))]
+                b = [list(r) for r in a[:2]] + [[v + rng.choice([0, 2**bits, -2**bits]) for v in rng.choice(a)]
+                                                for _ in range(rng.randint(1, 4))]
+                c = {"kind": k, "a": a, "b": b, "dtype_a": da, "dtype_b": "int64"}
+            yield c
         elif k == "unique_value_in_row":
             cols = rng.choice([2, 3, 4])
             yield {"kind": k, "rows": [[rng.randint(-1, 2) for _ in range(cols)] for _ in range(rng.randint(1, 6))]}
@@ -179,7 +199,7 @@ def run_case(c):
     if k == "group_min":
         return {"mins": g.group_min(np.array(c["groups"], dtype=np.int64), np.array(c["data"], dtype=np.int64)).tolist()}
     if k == "boolean_rows":
-        a, b = np.array(c["a"], dtype=np.int64), np.array(c["b"], dtype=np.int64)
+        a, b = np.array(c["a"], dtype=c.get("dtype_a", "int64")), np.array(c["b"], dtype=c.get("dtype_b", "int64"))
         return {"inter": sorted(g.boolean_rows(a, b, np.intersect1d).tolist()),
                 "diff": sorted(g.boolean_rows(a, b, np.setdiff1d).tolist())}
     if k == "unique_value_in_row":
